@@ -313,7 +313,7 @@ def gen_pair(rng, quirks=False, force=None):
             place = rng.random()
             if place < 0.08:
                 feats.add("kind:src_only")
-                rng.choice(sslots).append(mk_field(sname, sty, tag if top else "", vc))
+                (sslots[0] if (tag and top) else rng.choice(sslots)).append(mk_field(sname, sty, tag if top else "", vc))
                 continue
             if place < 0.16:
                 feats.add("kind:dst_only")
@@ -943,10 +943,11 @@ def render_coq_pair(spec):
         return "[%s]" % "; ".join('("%s", [%s])' % (j["src"], "; ".join(
             '("%s", %s, (%d)%%Z)' % (f, COQ_BASIC[b], k) for f, b, k in j[key])) for j in spec["jobs"] if j.get(key))
     return ("(let E : env := [%s] in let FN : list mfunc := %s in {| ps_env := E; ps_fuel := %d; ps_jobs := [%s]; "
-            "ps_funcs := [%s]; ps_manual_to := %s; ps_manual_from := %s |})" % (
+            "ps_funcs := [%s]; ps_manual_to := %s; ps_manual_from := %s; ps_way := %s |})" % (
                 ";\n  ".join(decls), funcs, fuel, ";\n  ".join(jobs),
                 "; ".join('("%s", %s)' % (f["name"], coq_fkind(f["kind"])) for f in spec["funcs"]),
-                manual("manual_to"), manual("manual_from")))
+                manual("manual_to"), manual("manual_from"),
+                {"both": "WBoth", "toonly": "WToOnly", "fromonly": "WFromOnly"}[spec["flags"]["way"]]))
 
 
 # ------------------------------------------------------------------------------ oracle dump parsing
@@ -1033,3 +1034,110 @@ if __name__ == "__main__":
         print(t)
     print(shoot_args(sp))
     print(render_coq_pair(sp))
+
+
+# ------------------------------------------------------------------------------ fixed corpus
+def _f(name, ty, tag="", emb=False, vc="full"):
+    return {"name": name, "emb": emb, "ty": ty, "tag": tag, "vc": vc}
+
+
+def _job(s, d):
+    return {"src": s, "dst": d, "manual_to": None, "manual_from": None}
+
+
+def _spec(src, dst, jobs, funcs=None, mapper=None, root="T", **flags):
+    fl = {"ic": False, "alias": None, "way": "both"}
+    fl.update(flags)
+    return {"decls": {"src": src, "dst": dst}, "jobs": jobs, "funcs": funcs or [], "mapper": mapper,
+            "flags": fl, "root": root, "features": ["corpus"]}
+
+
+def corpus():
+    """hand-written pairs that put every rule of the property into every run (values stay random)"""
+    st = lambda n, fs: {"name": n, "kind": "struct", "fields": fs}
+    res = []
+    inner_s = st("Inner", [_f("A", B("int")), _f("B", B("string"))])
+    inner_d = st("Inner", [_f("A", B("int64")), _f("B", B("string"))])
+    # 1. the comprehensive example (also Proofs/MapperExamples.v ex1)
+    res.append(_spec(
+        [inner_s, st("Deep", [_f("DP", B("string"))]),
+         st("EmbP", [_f("EP", B("int32")), _f("Deep", P(N("src", "Deep")), emb=True)]),
+         st("Mapper", []),
+         st("T", [_f("Mapper", N("src", "Mapper"), emb=True), _f("EmbP", P(N("src", "EmbP")), emb=True),
+                  _f("ID", B("int")), _f("UserID", B("int64")), _f("N8", B("int8"), vc="rune"), _f("S2", B("string"), "Str"),
+                  _f("Skip", B("int"), "-"), _f("Amount", B("string")), _f("In", N("src", "Inner")),
+                  _f("InP", P(N("src", "Inner"))), _f("Ins", S(N("src", "Inner"))), _f("InPs", S(P(N("src", "Inner")))),
+                  _f("Lv", N("common", "Level"))])],
+        [{"name": "Status", "kind": "basic", "basic": "int"}, inner_d, st("Deep", [_f("DP", B("string"))]),
+         st("EmbV", [_f("EP", B("int64")), _f("Deep", P(N("dst", "Deep")), emb=True)]),
+         st("T", [_f("EmbV", N("dst", "EmbV"), emb=True), _f("ID", B("int")), _f("UserId", B("int")), _f("N8", B("string")),
+                  _f("Str", B("string")), _f("Skip", B("int")), _f("Amount", B("int64")), _f("In", P(N("dst", "Inner"))),
+                  _f("InP", N("dst", "Inner")), _f("Ins", S(P(N("dst", "Inner")))), _f("InPs", S(N("dst", "Inner"))),
+                  _f("Lv", N("dst", "Status")), _f("Extra", B("bool"))])],
+        [_job("Inner", "Inner"), _job("T", "T")],
+        [{"name": "StrToI64", "param": B("string"), "result": B("int64"), "kind": ["len", "int64", 3]},
+         {"name": "I64ToStr", "param": B("int64"), "result": B("string"), "kind": ["parity", "#p"]}],
+        {"name": "Mapper", "pkg": "src"}))
+    # 2. map:"-" on either side, same types: must stay zero in the direction that would write it
+    res.append(_spec(
+        [st("T", [_f("A", B("int"), "-"), _f("B", B("int")), _f("C", B("string")), _f("D", B("string"), "-")])],
+        [st("T", [_f("A", B("int")), _f("B", B("int"), "-"), _f("C", B("string"), "-"), _f("D", B("string"))])],
+        [_job("T", "T")]))
+    # 3./4. names equal only case-insensitively: mapped with -i, left alone without
+    for ic in (True, False):
+        res.append(_spec(
+            [st("T", [_f("Username", B("string")), _f("Orderno", B("int")), _f("URL", B("string")), _f("Zip", B("int"))])],
+            [st("T", [_f("UserName", B("string")), _f("OrderNo", B("int")), _f("Url", B("string")), _f("ZIP", B("int"))])],
+            [_job("T", "T")], ic=ic))
+    # 5. priority: mapper method > conversion / assignment; the remaining same-typed field is assigned;
+    #    string <-> fixed-width int is mapped only through a method; second method of a signature never used
+    res.append(_spec(
+        [st("Mapper", []),
+         st("T", [_f("Mapper", N("src", "Mapper"), emb=True), _f("A", B("int")), _f("Bs", B("string")), _f("C", B("int")),
+                  _f("D", B("string")), _f("E", B("string")), _f("G", B("int"), vc="rune"), _f("H", B("uint8"))])],
+        [st("T", [_f("A", B("int64")), _f("Bs", B("string")), _f("C", B("int")), _f("D", B("int32"), vc="rune"),
+                  _f("E", B("int16"), vc="rune"), _f("G", B("string")), _f("H", B("string"))])],
+        [_job("T", "T")],
+        [{"name": "F0", "param": B("int"), "result": B("int64"), "kind": ["add", "int64", 5]},
+         {"name": "F1", "param": B("string"), "result": B("string"), "kind": ["cat", "#a"]},
+         {"name": "F2", "param": B("string"), "result": B("string"), "kind": ["cat", "#never"]},
+         {"name": "F3", "param": B("string"), "result": B("int32"), "kind": ["len", "int32", 2]},
+         {"name": "F4", "param": B("int32"), "result": B("string"), "kind": ["parity", "#q"]}],
+        {"name": "Mapper", "pkg": "src"}))
+    # 6. sub-structs: every pointer combination, by value and as slice elements, renamed destination type (-to)
+    res.append(_spec(
+        [inner_s,
+         st("T", [_f("V2V", N("src", "Inner")), _f("V2P", N("src", "Inner")), _f("P2V", P(N("src", "Inner"))),
+                  _f("P2P", P(N("src", "Inner"))), _f("SV2V", S(N("src", "Inner"))), _f("SV2P", S(N("src", "Inner"))),
+                  _f("SP2V", S(P(N("src", "Inner")))), _f("SP2P", S(P(N("src", "Inner"))))])],
+        [st("InnerDTO", [_f("A", B("int64")), _f("B", B("string"))]),
+         st("TDTO", [_f("V2V", N("dst", "InnerDTO")), _f("V2P", P(N("dst", "InnerDTO"))), _f("P2V", N("dst", "InnerDTO")),
+                     _f("P2P", P(N("dst", "InnerDTO"))), _f("SV2V", S(N("dst", "InnerDTO"))),
+                     _f("SV2P", S(P(N("dst", "InnerDTO")))), _f("SP2V", S(N("dst", "InnerDTO"))),
+                     _f("SP2P", S(P(N("dst", "InnerDTO"))))])],
+        [_job("Inner", "InnerDTO"), _job("T", "TDTO")]))
+    # 7. embedded structs to depth 2, pointer/value on both sides, shadowing at different depths, alias
+    res.append(_spec(
+        [st("L2a", [_f("X", B("int")), _f("ID", B("string"))]), st("L2b", [_f("Y", B("int"))]),
+         st("L1a", [_f("L2a", P(N("src", "L2a")), emb=True), _f("P", B("int"))]),
+         st("L1b", [_f("L2b", N("src", "L2b"), emb=True), _f("Q", B("string"))]),
+         st("T", [_f("L1a", P(N("src", "L1a")), emb=True), _f("L1b", N("src", "L1b"), emb=True), _f("ID", B("int")),
+                  _f("Z", B("int"))])],
+        [st("M2", [_f("Y", B("int64")), _f("Z", B("int"))]),
+         st("M1", [_f("M2", P(N("dst", "M2")), emb=True), _f("X", B("int")), _f("Q", B("string"))]),
+         st("N1", [_f("P", B("int32")), _f("ID", B("int"))]),
+         st("T", [_f("M1", N("dst", "M1"), emb=True), _f("N1", P(N("dst", "N1")), emb=True)])],
+        [_job("T", "T")], alias="dm"))
+    # 8./9. -way
+    for way in ("toonly", "fromonly"):
+        res.append(_spec([st("T", [_f("A", B("int")), _f("B", B("string"))])],
+                         [st("T", [_f("A", B("int64")), _f("B", B("string"))])], [_job("T", "T")], way=way))
+    # 10. tags: Pascal-casing of the tag, tag on one of two candidates; named scalars of dest/common
+    res.append(_spec(
+        [st("T", [_f("Alpha", B("string"), "user_name"), _f("Beta", B("int"), "code"), _f("Lv", N("common", "Level")),
+                  _f("St", B("int")), _f("Tx", N("common", "Code"))])],
+        [{"name": "Status", "kind": "basic", "basic": "int"}, {"name": "Text", "kind": "basic", "basic": "string"},
+         st("T", [_f("UserName", B("string")), _f("Code", B("int32")), _f("Lv", B("int16")), _f("St", N("dst", "Status")),
+                  _f("Tx", N("dst", "Text")), _f("Alpha", B("string"))])],
+        [_job("T", "T")]))
+    return res
